@@ -247,30 +247,32 @@ def new_vertex_plausible(V, i):
 
 
 def non_simple_surface(F):
-    """None, or why the face list is outside the simple inputs: two faces sharing two or more edges, or a quad whose
-    (second, fourth) diagonal - the one triangulate_face cuts along - is already an edge or the cut of another quad"""
+    """None, or (class, why) when the face list belongs to one of the two recorded input classes on which the editors
+    return a non-manifold mesh (both are known findings with their own key):
+      "same-vertex-triangles": two triangles on the same three vertices (loop_subdivision / subdivide_triangles_6 identify
+                               the interior edges of the two refinements);
+      "joined-cut": a quad (A,B,C,D) whose diagonal B-D - the one triangulate_face cuts along - is already an edge, or is
+                    the cut of another quad."""
+    tri = {}
+    for i, f in enumerate(F):
+        if len(f) == 3:
+            k = key(*f)
+            if k in tri:
+                return ("same-vertex-triangles", "triangles %d and %d have the same three vertices %s" % (tri[k], i, k))
+            tri[k] = i
     edges = {}
     for i, f in enumerate(F):
         n = len(f)
         for k in range(n):
             edges.setdefault(key(f[k], f[(k + 1) % n]), []).append(i)
-    pairs = {}
-    for e, l in edges.items():
-        for a in l:
-            for b in l:
-                if a < b:
-                    pairs[(a, b)] = pairs.get((a, b), 0) + 1
-    for (a, b), n in pairs.items():
-        if n >= 2:
-            return "faces %d and %d share %d edges" % (a, b, n)
     cuts = {}
     for i, f in enumerate(F):
         if len(f) == 4:
             d = key(f[1], f[3])
             if d in edges:
-                return "the diagonal %s along which quad %d is cut is already an edge" % (d, i)
+                return ("joined-cut", "the diagonal %s along which quad %d is cut is already an edge" % (d, i))
             if d in cuts:
-                return "quads %d and %d are cut along the same diagonal %s" % (cuts[d], i, d)
+                return ("joined-cut", "quads %d and %d are cut along the same diagonal %s" % (cuts[d], i, d))
             cuts[d] = i
     return None
 
